@@ -412,6 +412,44 @@ func c15Cancel(delay bool, k int) fw.Case {
 	}}
 }
 
+// c15CancelSequential: cancelling the subscription context while an asynchronous attempt is running must not
+// let a concatenating operator start the next attempt beside it (attempts stay strictly sequential; these
+// operators do not react to the context at all, so the cancelled run equals the uncancelled one).
+func c15CancelSequential(name string, build func(s ro.Observable[int]) ro.Observable[int], k int, bound int) fw.Case {
+	return fw.Case{Name: fmt.Sprintf("cancel-at-delivery-%d", k), Bound: bound, Opts: vrt.Options{Horizon: 60000, MaxTime: int64(100 * u)}, Make: func() fw.Instance {
+		rec, ref := h.NewRec("cancelled"), h.NewRec("not-cancelled")
+		src, srcRef := h.NewSrc("attempts"), h.NewSrc("attempts")
+		words := [][]h.Ev{wordC(1, 2), wordC(3), wordC(4)}
+		body := func() {
+			ctx, cancel := context.WithCancel(context.Background())
+			rec.Hook = func(r *h.Rec, idx int, e h.Ev) {
+				if idx == k {
+					cancel()
+				}
+			}
+			vrt.GoNamed("cancelled", func() {
+				build(h.Attempts[int](src, h.Unsafe, words, true)).SubscribeWithContext(ctx, h.Observer[int](rec))
+			})
+			vrt.Settle()
+			vrt.GoNamed("reference", func() {
+				build(h.Attempts[int](srcRef, h.Unsafe, words, true)).SubscribeWithContext(context.Background(), h.Observer[int](ref))
+			})
+		}
+		return fw.Instance{Body: body, Outcome: rec.Trace, Check: func(r *vrt.Result) []fw.Violation {
+			var out []fw.Violation
+			sig := "attempts/" + name + "(cancel)"
+			where := fmt.Sprintf("%s over asynchronous attempts [1 2 C][3 C][4 C], context cancelled inside delivery #%d", name, k)
+			if src.MaxOpen > 1 {
+				out = append(out, fw.V(sig+"/attempts-overlap/open", fmt.Sprintf("%s: %d attempts were open at the same time (trace [%s])", where, src.MaxOpen, rec.Trace())))
+			}
+			if !h.SameTrace(rec.Events(), ref.Events()) {
+				out = append(out, fw.V(sig+"/trace-differs-from-uncancelled-run/"+diffClass(rec.Events(), ref.Events()), fmt.Sprintf("%s: delivered [%s]; without cancellation [%s]", where, rec.Trace(), ref.Trace())))
+			}
+			return out
+		}}
+	}}
+}
+
 func init() {
 	Registry["C15"] = func(tier string) []fw.Scenario {
 		maxAttempts := 3
@@ -475,6 +513,24 @@ func init() {
 					}
 				}})
 			}
+		}
+		for _, cc := range []struct {
+			name  string
+			build func(s ro.Observable[int]) ro.Observable[int]
+		}{
+			{"Concat(src,src,src)", func(s ro.Observable[int]) ro.Observable[int] { return ro.Concat(s, s, s) }},
+			{"ConcatWith(src,src)", func(s ro.Observable[int]) ro.Observable[int] { return ro.ConcatWith(s, s)(s) }},
+			{"FlatMap(->src)", func(s ro.Observable[int]) ro.Observable[int] {
+				return ro.FlatMap(func(int) ro.Observable[int] { return s })(ro.Just(0, 1, 2))
+			}},
+			{"RepeatWith(3)", func(s ro.Observable[int]) ro.Observable[int] { return ro.RepeatWith[int](3)(s) }},
+		} {
+			cc := cc
+			scns = append(scns, fw.Scenario{ID: "C15/cancel-sequential/" + cc.name, Group: "cancel", Run: func(c *fw.Ctx) {
+				for k := 0; k < 4; k++ {
+					c.Explore(c15CancelSequential(cc.name, cc.build, k, 1))
+				}
+			}})
 		}
 		scns = append(scns, fw.Scenario{ID: "C15/cancel", Group: "Retry", Run: func(c *fw.Ctx) {
 			for _, d := range []bool{false, true} {
